@@ -1113,26 +1113,26 @@ def suite_exec_put(ctx, app, only=None):
         if model is not None and model != impl:
             ctx.disagree('exec_put', case, model, impl)
         # oracle: the property text, on observations only
-        bad = None
+        bad = code = None
         for (name, a, kw) in rpcs:
             if name == 'pause_workflow' and st != 'PAUSED':
-                bad = 'pause requested by state %r' % st
+                code, bad = 'undocumented-pause', 'pause requested by state %r' % st
             elif name == 'resume_workflow' and st != 'RUNNING':
-                bad = 'resume requested by state %r' % st
+                code, bad = 'undocumented-resume', 'resume requested by state %r' % st
             elif name == 'stop_workflow' and not (st in FINAL + ('SKIPPED',) and a[1] == st):
-                bad = 'stop_workflow(%r) requested by state %r' % (a[1:2], st)
+                code, bad = 'undocumented-stop', 'stop_workflow(%r) requested by state %r' % (a[1:2], st)
             elif name not in ('pause_workflow', 'resume_workflow', 'stop_workflow'):
-                bad = 'unexpected engine call %s' % name
+                code, bad = 'unexpected-engine-call', 'unexpected engine call %s' % name
         if st and desc and (impl['upd_desc'] or rpcs or status < 400):
-            bad = 'description and state accepted together'
+            code, bad = 'description-with-state', 'description and state accepted together'
         if impl['upd_desc'] and rpcs:
-            bad = 'description written and engine called in one request'
+            code, bad = 'description-with-state', 'description written and engine called in one request'
         if before['state'] != after['state']:
-            bad = 'the controller itself changed the state column'
+            code, bad = 'state-written', 'the controller itself changed the state column'
         if status >= 400 and (rpcs or before != after):
-            bad = 'refused (%d) but had an effect' % status
+            code, bad = 'refused-with-effect', 'refused (%d) but had an effect' % status
         if bad:
-            ctx.fail('exec-put:%s' % bad.split(' ')[0], 'PUT execution %r -> %d: %s' % (body, status, bad), dict(case, kind='exec_put', tuple=[st, desc, env, present, cur]))
+            ctx.fail('exec-put:%s' % code, 'PUT execution %r -> %d: %s' % (body, status, bad), dict(case, kind='exec_put', tuple=[st, desc, env, present, cur]))
     ctx.sample({'suite': 'exec_put', 'body': {'state': 'PAUSED'}, 'expected': 'pause_workflow'})
 
 
@@ -1174,7 +1174,7 @@ def one_exec_delete(app, cur, force, present):
 
 def suite_exec_delete(ctx, app, only=None):
     cases, exprs = [], []
-    for cur in ROW_STATES:
+    for cur in ['RUNNING'] + [x for x in ROW_STATES if x != 'RUNNING']:
         for force in FORCE_TEXTS:
             for present in (True, False):
                 cases.append((cur, force, present))
@@ -1256,22 +1256,22 @@ def suite_task_put(ctx, app, only=None):
         ctx.cov['disagreements_checked'] += 1
         if model is not None and model != impl:
             ctx.disagree('task_put', case, model, impl)
-        bad = None
+        bad = code = None
         if rpcs:
             if cur != 'ERROR':
-                bad = 'engine called for a task in state %s' % cur
+                code, bad = 'not-from-error', 'engine called for a task in state %s' % cur
             elif st not in ('RUNNING', 'SKIPPED'):
-                bad = 'engine called for requested state %r' % st
+                code, bad = 'undocumented-target', 'engine called for requested state %r' % st
             elif [c[0] for c in rpcs] != ['rerun_workflow']:
-                bad = 'unexpected engine calls %s' % [c[0] for c in rpcs]
+                code, bad = 'unexpected-engine-call', 'unexpected engine calls %s' % [c[0] for c in rpcs]
             elif bool(rpcs[0][2].get('skip')) != (st == 'SKIPPED'):
-                bad = 'skip flag does not match the requested state'
+                code, bad = 'skip-flag', 'skip flag does not match the requested state'
         if before != after:
-            bad = 'the controller wrote to the database'
+            code, bad = 'db-written', 'the controller wrote to the database'
         if status >= 400 and rpcs:
-            bad = 'refused (%d) but called the engine' % status
+            code, bad = 'refused-with-effect', 'refused (%d) but called the engine' % status
         if bad:
-            ctx.fail('task-put:%s' % bad.split(' ')[0], 'PUT task %r (current %s) -> %d: %s' % (body, cur, status, bad), dict(case, kind='task_put', tuple=[st, cur, reset, wi, present, name, wfname]))
+            ctx.fail('task-put:%s' % code, 'PUT task %r (current %s) -> %d: %s' % (body, cur, status, bad), dict(case, kind='task_put', tuple=[st, cur, reset, wi, present, name, wfname]))
 
 
 def suite_action_put(ctx, app, only=None):
@@ -1316,15 +1316,15 @@ def suite_action_put(ctx, app, only=None):
         ctx.cov['disagreements_checked'] += 1
         if model is not None and model != impl:
             ctx.disagree('action_put', case, model, impl)
-        bad = None
+        bad = code = None
         if rpcs and st not in ('SUCCESS', 'ERROR', 'CANCELLED', 'PAUSED', 'RUNNING'):
-            bad = 'engine called for unsupported state %r' % st
+            code, bad = 'unsupported-state', 'engine called for unsupported state %r' % st
         if rpcs and rpcs[0][0] == 'on_action_update' and rpcs[0][1][1] != st:
-            bad = 'engine asked for state %r, request said %r' % (rpcs[0][1][1], st)
+            code, bad = 'other-state', 'engine asked for state %r, request said %r' % (rpcs[0][1][1], st)
         if before != after:
-            bad = 'the controller wrote to the database'
+            code, bad = 'db-written', 'the controller wrote to the database'
         if bad:
-            ctx.fail('action-put:%s' % bad.split(' ')[0], 'PUT action execution %r -> %d: %s' % (body, status, bad), dict(case, kind='action_put', tuple=[st, output, present]))
+            ctx.fail('action-put:%s' % code, 'PUT action execution %r -> %d: %s' % (body, status, bad), dict(case, kind='action_put', tuple=[st, output, present]))
 
 
 def suite_action_delete(ctx, app, only=None):
